@@ -78,6 +78,16 @@ pub trait H {
     }
     /// a borrowed return configured with returns(): the value lives in the shared call pattern
     fn bor(&self) -> &ValA;
+    /// answered with the number of live lent values at the moment of the call
+    fn probe(&self) -> u64;
+    /// by-value receiver: the instance travels into the delegation helper (to_delegator) and is dropped when the call returns;
+    /// what it lent before must still be alive while the body runs
+    fn consume(self) -> u64
+    where
+        Self: Sized,
+    {
+        self.probe()
+    }
 }
 
 fn new_original() -> Unimock {
@@ -85,11 +95,12 @@ fn new_original() -> Unimock {
         HMock::req_a.each_call(matching!(_)).answers(&|u, v| u.make_ref(ValA::new(v))),
         HMock::req_b.each_call(matching!(_)).answers(&|u, v| u.make_ref(ValB::new(v))),
         HMock::bor.each_call(matching!()).returns(ValA::new(4242)),
+        HMock::probe.each_call(matching!()).answers(&|_| live() as u64),
     ));
     // verification is not what this harness is about: both clauses are used once up front (through a short-lived
     // clone, whose chain takes the two values with it) so that the original's teardown has nothing to report
     let c = u.clone();
-    let _ = (H::req_a(&c, 0).0, H::req_b(&c, 0).0, H::bor(&c).0);
+    let _ = (H::req_a(&c, 0).0, H::req_b(&c, 0).0, H::bor(&c).0, H::probe(&c));
     drop(c);
     u
 }
@@ -119,6 +130,8 @@ enum Op {
     Touch,
     TouchPin,
     Nvid,
+    /// only as the last operation of the last session, which must be a clone
+    Consume,
 }
 
 fn parse_op(s: &str) -> Op {
@@ -131,6 +144,7 @@ fn parse_op(s: &str) -> Op {
         "t" => Op::Touch,
         "p" => Op::TouchPin,
         "n" => Op::Nvid,
+        "v" => Op::Consume,
         _ => panic!("bad op {s}"),
     }
 }
@@ -161,7 +175,7 @@ fn shared_phase(u: &Unimock, ops: &[Op], out: &mut impl Write) -> usize {
                 writeln!(out, "[{}] live={}", show_all(&held), live()).unwrap();
             }
             Op::Live => writeln!(out, "[{}] live={}", show_all(&held), live()).unwrap(),
-            Op::Mut(..) | Op::Touch | Op::TouchPin | Op::Nvid => break,
+            Op::Mut(..) | Op::Touch | Op::TouchPin | Op::Nvid | Op::Consume => break,
         }
         k += 1;
     }
@@ -205,6 +219,12 @@ fn session(u: &mut Unimock, ops: &[Op], out: &mut impl Write) {
                 let taken = std::mem::replace(u, Unimock::new(()));
                 *u = taken.no_verify_in_drop();
                 writeln!(out, "[nvid] live={}", live()).unwrap();
+                k += 1;
+            } else if let Op::Consume = ops[k] {
+                // the instance is moved into a provided method with a by-value receiver; an empty mock takes its place in the list
+                let taken = std::mem::replace(u, Unimock::new(()));
+                let seen = H::consume(taken);
+                writeln!(out, "[consume{seen}] live={}", live()).unwrap();
                 k += 1;
             }
         }
